@@ -41,6 +41,8 @@ var c17Siblings = []struct{ id, src string }{
 	{"sibNamedConvergenLike", "//go:build convergen\n\npackage x\n\n// :convergen\n// :typecast\ntype SibConvergen interface {\n\t// :skip A\n\tSibM(*S) *D\n\tSibN(*S) *D\n}\n"},
 	{"sibUnmarked", "//go:build convergen\n\npackage x\n\ntype SibPlain interface {\n\tSibM(*S) *D\n}\n"},
 	{"sibOrdinaryMarked", "package x\n\n// :convergen\ntype SibConv interface {\n\tSibM(*S) *D\n}\n"},
+	// a second setup file of the package declaring an interface NAMED Convergen (only with inputs that declare none themselves)
+	{"sibExactConvergen", "//go:build convergen\n\npackage x\n\ntype Convergen interface {\n\tSibM(*S) *D\n}\n"},
 }
 
 type c17Meta struct {
@@ -61,6 +63,9 @@ func c17Cell(kinds []int, sib, recv int) *scen.Cell {
 		}
 		if names[name] {
 			return nil // the same name twice is not valid Go
+		}
+		if name == "Convergen" && c17Siblings[sib].id == "sibExactConvergen" {
+			return nil // would declare Convergen twice in the package
 		}
 		names[name] = true
 		if kd.id == "docMarkedEmbedding" {
@@ -109,7 +114,7 @@ func init() {
 			scen.Odometer(rad, func(d []int) {
 				for sib := range c17Siblings {
 					for recv := 0; recv < 2; recv++ {
-						if n == 3 && !(sib == 0 || sib == 2) {
+						if n == 3 && !(sib == 0 || sib == 2 || sib == 5) {
 							continue // three interfaces: sibling variants none / marked only
 						}
 						if c := c17Cell(d, sib, recv); c != nil {
